@@ -43,9 +43,11 @@ CONSTANTS MapReversed,        \* responses handed to the callbacks in reverse or
           DoubleErrSends,     \* pre-repair doMultiShardGet: counter = 0; counter-- after an error
           KeepPartial,        \* responses streamed by a failed read attempt stay in the container the retry fills
           ResendWrites,       \* a write whose stream broke after the request was sent is sent again
-          ScanOpenErrNoClose  \* pre-repair rangeScanFromShard: no close when the stream cannot be opened
+          ScanOpenErrNoClose, \* pre-repair rangeScanFromShard: no close when the stream cannot be opened
+          DropAbandoned       \* the future of a timed-out write is removed from the write stream's positional queue
 
-VARIABLES cfg,      \* [n, maxReq, maxBytes, linger, dead] - client options and cluster of this run
+VARIABLES cfg,      \* [n, maxReq, maxBytes, linger, dead, tmo] - client options and cluster of this run
+                    \* (tmo: the request timeout is short enough to fire while a leader is slow)
           calls,    \* issued calls (templates); the call id is the index
           q, cur, fly,       \* [shard -> [w |-> seq of ids, r |-> seq of ids]]
           ans,      \* ans[c][s]: what the server of shard s answered for call c (history)
@@ -54,6 +56,9 @@ VARIABLES cfg,      \* [n, maxReq, maxBytes, linger, dead] - client options and 
           res,      \* the result call c completed with (batched calls)
           sent,     \* sent[c][s]: how often the request of call c was handed to the server of shard s (history)
           part,     \* [shard -> [w, r]]: responses streamed by failed attempts of the in-flight request
+          late,     \* [shard -> seq of batches]: write requests the leader received on the live write stream and
+                    \* has not answered yet, whose client-side wait has ended (request timeout): the stream
+                    \* answers in order, so the leader's queue is late[s] \o <<fly[s].w>>
           sst,      \* server side of the list / scan stream of call c on shard s
           emitted,  \* keys the server sent on that stream (history)
           wire,     \* sent by the server, not yet forwarded by the client's per-shard goroutine
@@ -62,8 +67,8 @@ VARIABLES cfg,      \* [n, maxReq, maxBytes, linger, dead] - client options and 
           mrg,      \* merge goroutine of a multi-shard scan: [ph, i, heap]
           out       \* what was delivered on the result channel of a list / scan call
 
-vars == <<cfg, calls, q, cur, fly, ans, agg, done, res, sent, part, sst, emitted, wire, chn, gcl, fin, mrg, out>>
-batchVars  == <<q, cur, fly, ans, agg, res, sent, part>>
+vars == <<cfg, calls, q, cur, fly, ans, agg, done, res, sent, part, late, sst, emitted, wire, chn, gcl, fin, mrg, out>>
+batchVars  == <<q, cur, fly, ans, agg, res, sent, part, late>>
 streamVars == <<sst, emitted, wire, chn, gcl, fin, mrg, out>>
 
 Shards == 1..cfg.n
@@ -117,6 +122,8 @@ Floorish(t) == t.cmp \in {"FLOOR", "LOWER"}
 Rec(st, c, s, key) == [st |-> st, c |-> c, s |-> s, key |-> key]
 NoAns    == Rec("none", 0, 0, <<>>)
 ErrAns   == Rec("err", 0, 0, <<>>)
+TimeoutAns == Rec("timeout", 0, 0, <<>>)   \* the client-side wait ended (context deadline exceeded)
+ErrSts   == {"err", "timeout"}
 NotFound == Rec("notfound", 0, 0, <<>>)
 OkAns    == Rec("ok", 0, 0, <<>>)
 
@@ -145,6 +152,7 @@ Init(c0) ==
     /\ cfg = c0
     /\ calls = <<>> /\ ans = <<>> /\ agg = <<>> /\ done = <<>> /\ res = <<>> /\ sent = <<>>
     /\ part = [s \in 1..c0.n |-> [w |-> <<>>, r |-> <<>>]]
+    /\ late = [s \in 1..c0.n |-> <<>>]
     /\ q   = [s \in 1..c0.n |-> [w |-> <<>>, r |-> <<>>]]
     /\ cur = [s \in 1..c0.n |-> [w |-> <<>>, r |-> <<>>]]
     /\ fly = [s \in 1..c0.n |-> [w |-> <<>>, r |-> <<>>]]
@@ -156,6 +164,7 @@ Reinit(c0) ==
     /\ cfg' = c0
     /\ calls' = <<>> /\ ans' = <<>> /\ agg' = <<>> /\ done' = <<>> /\ res' = <<>> /\ sent' = <<>>
     /\ part' = [s \in 1..c0.n |-> [w |-> <<>>, r |-> <<>>]]
+    /\ late' = [s \in 1..c0.n |-> <<>>]
     /\ q'   = [s \in 1..c0.n |-> [w |-> <<>>, r |-> <<>>]]
     /\ cur' = [s \in 1..c0.n |-> [w |-> <<>>, r |-> <<>>]]
     /\ fly' = [s \in 1..c0.n |-> [w |-> <<>>, r |-> <<>>]]
@@ -193,7 +202,7 @@ Issue(t) ==
     /\ fin' = Append(fin, {})
     /\ mrg' = Append(mrg, [ph |-> IF t.op = "scan" /\ Fanout(t) THEN "prime" ELSE "na", i |-> 1, heap |-> {}])
     /\ out' = Append(out, <<>>)
-    /\ UNCHANGED <<cfg, cur, fly, part>>
+    /\ UNCHANGED <<cfg, cur, fly, part, late>>
 
 (***************************************************************************)
 (* Batcher loop (oxia/batch/batcher.go:Run)                                *)
@@ -221,7 +230,7 @@ Take(s, k) ==
                /\ IF Len(nb) = cfg.maxReq \/ ~cfg.linger
                   THEN fly' = [fly EXCEPT ![s][k] = nb] /\ cur' = [cur EXCEPT ![s][k] = <<>>] /\ sent' = Handed(s, nb)
                   ELSE cur' = [cur EXCEPT ![s][k] = nb] /\ UNCHANGED <<fly, sent>>
-    /\ UNCHANGED <<cfg, calls, ans, agg, done, res, part>> /\ UNCHANGED streamVars
+    /\ UNCHANGED <<cfg, calls, ans, agg, done, res, part, late>> /\ UNCHANGED streamVars
 
 TimerEn(s, k) == cfg.linger /\ cur[s][k] # <<>> /\ fly[s][k] = <<>>
 Timer(s, k) ==
@@ -229,7 +238,7 @@ Timer(s, k) ==
     /\ fly' = [fly EXCEPT ![s][k] = cur[s][k]]
     /\ cur' = [cur EXCEPT ![s][k] = <<>>]
     /\ sent' = Handed(s, cur[s][k])
-    /\ UNCHANGED <<cfg, calls, q, ans, agg, done, res, part>> /\ UNCHANGED streamVars
+    /\ UNCHANGED <<cfg, calls, q, ans, agg, done, res, part, late>> /\ UNCHANGED streamVars
 
 \* all linger timers that are running expire (real time is global: used by the replay generator)
 TimerAllEn == \E s \in Shards, k \in Kinds : TimerEn(s, k)
@@ -239,7 +248,7 @@ TimerAll ==
     /\ cur' = [s \in Shards |-> [k \in Kinds |-> IF TimerEn(s, k) THEN <<>> ELSE cur[s][k]]]
     /\ sent' = [c \in DOMAIN sent |-> [s \in Shards |->
                     IF \E k \in Kinds : TimerEn(s, k) /\ c \in Range(cur[s][k]) THEN sent[c][s] + 1 ELSE sent[c][s]]]
-    /\ UNCHANGED <<cfg, calls, q, ans, agg, done, res, part>> /\ UNCHANGED streamVars
+    /\ UNCHANGED <<cfg, calls, q, ans, agg, done, res, part, late>> /\ UNCHANGED streamVars
 
 (***************************************************************************)
 (* Callbacks.  Upd(c, s, a) = effect of invoking the callback of the       *)
@@ -251,22 +260,24 @@ Select(t, sel, a) ==
     ELSE IF Floorish(t) THEN (IF SlashCmp(sel.key, a.key) < 0 THEN a ELSE sel)
     ELSE (IF SlashCmp(sel.key, a.key) > 0 THEN a ELSE sel)
 
-First(c, a) == IF done[c] = 0 THEN a ELSE res[c]
-Upd(c, s, a) ==
+\* UpdOn: the same on explicit current values g = agg[c], d = done[c], r = res[c] (ExpireAll applies the
+\* callbacks of one call for several shards in one step)
+UpdOn(g, d, r, c, s, a) ==
     LET t == calls[c]
-        g == agg[c]
+        first == IF d = 0 THEN a ELSE r
     IN IF ~Fanout(t)
-       THEN [agg |-> g, done |-> done[c] + 1, res |-> First(c, a)]
+       THEN [agg |-> g, done |-> d + 1, res |-> first]
        ELSE IF g.cnt = 0                         \* "Response already sent, nothing to do"
-       THEN [agg |-> g, done |-> done[c], res |-> res[c]]
+       THEN [agg |-> g, done |-> d, res |-> r]
        ELSE IF a.st \notin {"ok", "notfound"}    \* error (or a refusing status of a delete-range)
        THEN [agg |-> [g EXCEPT !.cnt = IF DoubleErrSends /\ t.op = "get" THEN -1 ELSE 0],
-             done |-> done[c] + 1, res |-> First(c, a)]
+             done |-> d + 1, res |-> first]
        ELSE LET sel == Select(t, g.sel, a)
                 n   == g.cnt - 1
             IN IF n = 0
-               THEN [agg |-> [cnt |-> 0, sel |-> sel], done |-> done[c] + 1, res |-> First(c, sel)]
-               ELSE [agg |-> [cnt |-> n, sel |-> sel], done |-> done[c], res |-> res[c]]
+               THEN [agg |-> [cnt |-> 0, sel |-> sel], done |-> d + 1, res |-> IF d = 0 THEN sel ELSE r]
+               ELSE [agg |-> [cnt |-> n, sel |-> sel], done |-> d, res |-> r]
+Upd(c, s, a) == UpdOn(agg[c], done[c], res[c], c, s, a)
 
 \* Apply the callbacks of the calls in S (each call occurs at most once in a batch) with answers G
 Deliver(S, s, G(_)) ==
@@ -279,6 +290,7 @@ PosIn(l, c) == CHOOSE i \in 1..Len(l) : l[i] = c
 
 Respond(s, k) ==
     /\ fly[s][k] # <<>>
+    /\ k = "w" => late[s] = <<>>        \* the write stream is answered in order: abandoned requests first
     /\ LET B == fly[s][k]
            \* the server answers request i of each list of the wire request with response i; the
            \* client hands response j to callback j of the same list
@@ -292,7 +304,7 @@ Respond(s, k) ==
           /\ ans' = [c \in DOMAIN ans |-> IF c \in Range(B) THEN [ans[c] EXCEPT ![s] = ServerAnswer(c, s)] ELSE ans[c]]
     /\ fly' = [fly EXCEPT ![s][k] = <<>>]
     /\ part' = [part EXCEPT ![s][k] = <<>>]
-    /\ UNCHANGED <<cfg, calls, q, cur, sent>> /\ UNCHANGED streamVars
+    /\ UNCHANGED <<cfg, calls, q, cur, sent, late>> /\ UNCHANGED streamVars
 
 \* every callback of the in-flight batch gets the error (write_batch.go / read_batch.go: Fail)
 FailBatch(s, k) ==
@@ -304,6 +316,8 @@ FailBatch(s, k) ==
           /\ q' = IF spill # {} THEN [q EXCEPT ![s][k] = Tail(@)] ELSE q
     /\ fly' = [fly EXCEPT ![s][k] = <<>>]
     /\ part' = [part EXCEPT ![s][k] = <<>>]
+    \* a failed write request = the write stream ended: what the leader still held unanswered is gone with it
+    /\ late' = IF k = "w" THEN [late EXCEPT ![s] = <<>>] ELSE late
     /\ UNCHANGED <<cfg, calls, cur, sent>> /\ UNCHANGED streamVars
 
 \* the attempt ends with an error the retry policy does not retry (rpc_errors.go: isRetriable)
@@ -329,8 +343,86 @@ Break(s, k, n) ==
             /\ sent' = Handed(s, B)
             \* what the failed attempt streamed (remembered as history; only the KeepPartial client uses it)
             /\ part' = [part EXCEPT ![s][k] = @ \o [x \in 1..n |-> ServerAnswer(B[x], s)]]
+            /\ late' = IF k = "w" THEN [late EXCEPT ![s] = <<>>] ELSE late
             /\ UNCHANGED <<cfg, calls, q, cur, fly, ans, agg, done, res>> /\ UNCHANGED streamVars
        ELSE FailBatch(s, k)
+
+(***************************************************************************)
+(* Request timeout (WithRequestTimeout; write_batch.go / read_batch.go:    *)
+(* doRequestWithRetries runs under context.WithTimeout).  The leader is    *)
+(* slow but alive:                                                         *)
+(*  - Expire(s, k): the client-side wait for the in-flight request ends;   *)
+(*    every callback of the batch gets the timeout error and the batcher   *)
+(*    goes on with the next batch.  A read is one RPC, the timeout cancels *)
+(*    it.  A write travels on the long-lived write stream, which survives: *)
+(*    the leader still holds the request (`late`) and answers it later;    *)
+(*  - RespondLate(s): the leader answers the oldest abandoned request.     *)
+(*    write_stream.go matches responses to requests by position in         *)
+(*    pendingRequests: the abandoned future must keep its place, so that   *)
+(*    this response is consumed by it and nobody else (DropAbandoned = the *)
+(*    future was taken out of the queue: the response goes to the request  *)
+(*    now at the head, i.e. the one in flight, whose own response is then  *)
+(*    left over for the request after it);                                 *)
+(*  - DropLate(s): the stream ends while only abandoned requests are       *)
+(*    outstanding.                                                         *)
+(***************************************************************************)
+ExpireEn(s, k) == cfg.tmo /\ fly[s][k] # <<>>
+Expire(s, k) ==
+    /\ ExpireEn(s, k)
+    /\ LET B == fly[s][k]
+           Given(c) == TimeoutAns
+       IN /\ Deliver(Range(B), s, Given)
+          /\ ans' = [c \in DOMAIN ans |-> IF c \in Range(B) THEN [ans[c] EXCEPT ![s] = TimeoutAns] ELSE ans[c]]
+          /\ late' = IF k = "w" THEN [late EXCEPT ![s] = Append(@, B)] ELSE late
+    /\ fly' = [fly EXCEPT ![s][k] = <<>>]
+    /\ part' = [part EXCEPT ![s][k] = <<>>]
+    /\ UNCHANGED <<cfg, calls, q, cur, sent>> /\ UNCHANGED streamVars
+
+\* every request in flight expires (real time is global: used by the replay generator, which lets
+\* the real request timeout pass)
+ExpireAllEn == cfg.tmo /\ \E s \in Shards, k \in Kinds : fly[s][k] # <<>>
+InFlightAt(c) == {s \in Shards : \E k \in Kinds : c \in Range(fly[s][k])}
+RECURSIVE FoldExp(_, _, _)
+FoldExp(c, st, S) ==
+    IF S = {} THEN st
+    ELSE LET s == CHOOSE x \in S : \A y \in S : x <= y
+         IN FoldExp(c, UpdOn(st.agg, st.done, st.res, c, s, TimeoutAns), S \ {s})
+ExpireAll ==
+    /\ ExpireAllEn
+    /\ LET F(c) == FoldExp(c, [agg |-> agg[c], done |-> done[c], res |-> res[c]], InFlightAt(c)) IN
+       /\ agg'  = [c \in DOMAIN agg  |-> F(c).agg]
+       /\ done' = [c \in DOMAIN done |-> F(c).done]
+       /\ res'  = [c \in DOMAIN res  |-> F(c).res]
+       /\ ans'  = [c \in DOMAIN ans  |-> [s \in Shards |-> IF s \in InFlightAt(c) THEN TimeoutAns ELSE ans[c][s]]]
+    /\ late' = [s \in Shards |-> IF fly[s]["w"] # <<>> THEN Append(late[s], fly[s]["w"]) ELSE late[s]]
+    /\ fly'  = [s \in Shards |-> [w |-> <<>>, r |-> <<>>]]
+    /\ part' = [s \in Shards |-> [w |-> <<>>, r |-> <<>>]]
+    /\ UNCHANGED <<cfg, calls, q, cur, sent>> /\ UNCHANGED streamVars
+
+Garbled == Rec("garbled", 0, 0, <<>>)
+RespondLate(s) ==
+    /\ late[s] # <<>>
+    /\ IF DropAbandoned /\ fly[s]["w"] # <<>>
+       THEN \* the client's queue holds only the in-flight request: it gets the response of the abandoned one,
+            \* position by position; its own response will find nobody (or the request after it)
+            LET L == Head(late[s])
+                B == fly[s]["w"]
+                Given(c) == LET l  == TypeList(B, calls[c].op)
+                                ll == TypeList(L, calls[c].op)
+                                i  == PosIn(l, c)
+                            IN IF i <= Len(ll) THEN ServerAnswer(ll[i], s) ELSE Garbled
+            IN /\ Deliver(Range(B), s, Given)
+               /\ ans' = [c \in DOMAIN ans |-> IF c \in Range(B) THEN [ans[c] EXCEPT ![s] = ServerAnswer(c, s)] ELSE ans[c]]
+               /\ fly' = [fly EXCEPT ![s]["w"] = <<>>]
+               /\ late' = [late EXCEPT ![s] = Append(Tail(@), B)]
+       ELSE /\ late' = [late EXCEPT ![s] = Tail(@)]
+            /\ UNCHANGED <<fly, ans, agg, done, res>>
+    /\ UNCHANGED <<cfg, calls, q, cur, sent, part>> /\ UNCHANGED streamVars
+
+DropLate(s) ==
+    /\ late[s] # <<>> /\ fly[s]["w"] = <<>>
+    /\ late' = [late EXCEPT ![s] = <<>>]
+    /\ UNCHANGED <<cfg, calls, q, cur, fly, ans, agg, done, res, sent, part>> /\ UNCHANGED streamVars
 
 (***************************************************************************)
 (* List / range-scan streams                                               *)
@@ -445,7 +537,7 @@ CorrectBatched(c) ==
         r == res[c]
     IN IF ~Fanout(t) THEN r # NoAns /\ r = ans[c][t.sh]
        ELSE LET A == {ans[c][s] : s \in Shards} IN
-            IF \E a \in A : a.st = "err" THEN r.st = "err"
+            IF \E a \in A : a.st \in ErrSts THEN r.st \in {a.st : a \in {x \in A : x.st \in ErrSts}}
             ELSE /\ NoAns \notin A
                  /\ IF t.op = "delrange" THEN r.st = "ok"
                     ELSE LET F == {a \in A : a.st = "ok"} IN
@@ -488,6 +580,12 @@ StreamComplete == \A c \in CallIds : (IsStream(calls[c]) /\ done[c] >= 1) =>
 \* nothing is delivered on a closed channel (would be a panic)
 ClosedIsFinal == [][\A c \in CallIds : done[c] >= 1 => (out'[c] = out[c] /\ res'[c] = res[c])]_vars
 
+\* whoever waited for an abandoned write request has been told (timeout); nothing is abandoned without a timeout
+LateDone == DropAbandoned \/
+            \A s \in Shards : /\ late[s] # <<>> => cfg.tmo
+                              /\ \A i \in 1..Len(late[s]) : \A c \in Range(late[s][i]) : done[c] >= 1
+
 TypeOK == /\ \A s \in Shards, k \in Kinds : Len(cur[s][k]) < cfg.maxReq \/ cur[s][k] = <<>>
           /\ \A s \in Shards, k \in Kinds : cur[s][k] # <<>> => fly[s][k] = <<>>
+          /\ LateDone
 =============================================================================
